@@ -321,9 +321,8 @@ func (w *world) planHO(op Op, fresh func() int, newID func() int) (p planned) {
 	case "map-into":
 		t := w.v[op.T].el
 		usesB := f.shape != "u" && f.shape != "rk" && f.shape != "kr"
-		ct := w.find(w.v[op.T].class)
-		if op.T == op.A || (usesB && op.T == op.B) || !w.v[op.T].ok ||
-			(ct != 0 && (ct == w.find(w.v[op.A].class) || (usesB && ct == w.find(w.v[op.B].class)))) {
+		if op.T == op.A || (usesB && op.T == op.B) || !w.v[op.T].ok || w.v[op.T].el.improper() ||
+			w.sharing(op.T, op.A) || (usesB && w.sharing(op.T, op.B)) {
 			return skip("ho: map-into into a list that shares cells with an argument")
 		}
 		m := min(n, len(t))
